@@ -212,13 +212,21 @@ pub mod tab {
             };
         }
 
-        if trailing > 0 && unchanged && pre.cursor > end {
-            // a blank has been typed after the word and the cursor is behind it: the statement
-            // does not settle whether that already "starts an argument"; leaving the line
-            // alone is fine (completing is fine too, below). With the cursor in or right
-            // behind the word the blanks are merely to its right: the line is a single
-            // partially typed word and must be completed.
-            return Ok(());
+        if trailing > 0 && pre.cursor > end {
+            // a blank has been typed after the word and the cursor is behind it: the word is
+            // finished and an argument has been started, so the line must be left alone.
+            // (With the cursor in or right behind the word the blanks are merely to its
+            // right: the line is a single partially typed word and is completed, below.)
+            return if unchanged {
+                Ok(())
+            } else {
+                Err(format!(
+                    "cursor is behind a blank that follows the word {:?} (an argument has been started) but the line changed to {:?} cursor {}",
+                    word_s,
+                    post.string(),
+                    post.cursor
+                ))
+            };
         }
 
         let k = common(&m);
@@ -311,9 +319,9 @@ mod tests {
         assert!(tab::check(&Line::at_end("s"), &names, 2, &Line::at_end("s")).is_ok());
         assert!(tab::check(&Line::at_end("x"), &names, 9, &Line::at_end("x")).is_ok());
         assert!(tab::check(&Line::at_end("set a"), &names, 9, &Line::at_end("set a")).is_ok());
-        // trailing blank, cursor behind it: both outcomes fine; cursor right behind the word: must complete
+        // trailing blank, cursor behind it: must be left alone; cursor right behind the word: must complete
         assert!(tab::check(&Line::at_end("s "), &names, 9, &Line::at_end("s ")).is_ok());
-        assert!(tab::check(&Line::at_end("s "), &names, 9, &Line::at_end("set ")).is_ok());
+        assert!(tab::check(&Line::at_end("s "), &names, 9, &Line::at_end("set ")).is_err());
         let pre = Line { text: "s ".chars().collect(), cursor: 1 };
         assert!(tab::check(&pre, &names, 9, &pre).is_err());
         assert!(tab::check(&pre, &names, 9, &Line::at_end("set ")).is_ok());
